@@ -114,7 +114,21 @@ def main(argv):
                 os.remove(os.path.join(rdir, f))
     missed = [r for r in rows if r[2] != 'DETECTED']
     print('%d mutant/check pairs, %d detected, %d not' % (len(rows), len(rows) - len(missed), len(missed)))
-    with open(os.path.join(VERIF, 'mutants', 'RESULTS.json'), 'w') as f:
-        json.dump([{'mutant': r[0], 'check': r[1], 'status': r[2], 'wall_s': round(r[3], 1),
-                    'first': r[4]} for r in rows], f, indent=1)
+    rpath = os.path.join(VERIF, 'mutants', 'RESULTS.json')
+    merged = {}
+    if os.path.exists(rpath):
+        try:
+            with open(rpath) as f:
+                for x in json.load(f):
+                    merged[(x['mutant'], x['check'])] = x
+        except ValueError:
+            pass
+    for r in rows:
+        for k in [k for k in merged if k[0] == r[0] and k[1] == '-']:
+            del merged[k]
+        merged[(r[0], r[1])] = {'mutant': r[0], 'check': r[1], 'status': r[2],
+                                'wall_s': round(r[3], 1), 'first': r[4]}
+    known = set(n for n, _ in collect())
+    with open(rpath, 'w') as f:
+        json.dump([merged[k] for k in sorted(merged) if k[0] in known], f, indent=1)
     return 0 if not missed else 1
